@@ -2,8 +2,12 @@
     inverse, shape-preserving, elementwise maps on well ids.
     Statements only; proofs live in Proofs/TransformProofs.v.
     Plates have at most 26 rows (one row letter per row); the bound is stated wherever it is used.
-    For the shifter only [RB <= 26] is assumed: [RA <= 26] follows from [RA + dr <= RB]. *)
-From Robo Require Import Prelude Str Wells Transform TransformProofs.
+    For the shifter only [RB <= 26] is assumed: [RA <= 26] follows from [RA + dr <= RB].
+    The lookup table of the randomiser is CONSTRUCTED (section "the table built by the constructor",
+    definitions and proofs in Proofs/RandomizerProofs.v) from the arrays that the calls of
+    [rng.permutation] returned; those draws are the only unknown and "each draw is a Permutation of
+    the array the generator was asked to permute" is the only hypothesis. *)
+From Robo Require Import Prelude Str Wells Transform TransformProofs RandomizerProofs.
 From Coq Require Import Permutation.
 
 (** two arrays have the same constructor and the same lengths *)
@@ -60,7 +64,10 @@ Theorem C15_shift_refused_anchor : forall RA CA RB CB anchor,
 Proof. exact xf_shift_refused_anchor. Qed.
 Print Assumptions C15_shift_refused_anchor.
 
-(** shift and unshift are mutually inverse partial maps; both are injective *)
+(** shift and unshift are mutually inverse partial maps; both are injective.
+    Wells of B outside the area A was shifted to (above / left of the anchor as well as below / right of
+    the area) are rejected by [unshift1] (model: [Err EReject]; library: IndexError, since fix 91d7131 also
+    above / left of the anchor, where negative indices used to wrap around). *)
 Theorem C15_shift_inverse : forall RA CA RB CB anchor s,
   RB <= 26 -> mk_shifter RA CA RB CB anchor = Ok s ->
   (forall w w', shift1 s w = Ok w' -> unshift1 s w' = Ok w) /\
@@ -158,7 +165,8 @@ Theorem C15_shape_rand : forall t (a : arr string),
 Proof. exact xf_rand_shape. Qed.
 Print Assumptions C15_shape_rand.
 
-(** ** randomisation: the realised lookup table [t] (graph of an injective map) *)
+(** ** randomisation: facts about an arbitrary lookup table [t] (graph of an injective map).
+    Their hypotheses on [t] are discharged for the table the constructor builds in the next section. *)
 
 Theorem C15_rand_inverse : forall t w w', NoDup (map fst t) -> NoDup (map snd t) ->
   (lookup t w = Some w' <-> lookup (invert t) w' = Some w).
@@ -196,6 +204,168 @@ Theorem C15_rand_rel : forall (P : string -> string -> Prop) t,
 Proof. exact xf_rand_rel. Qed.
 Print Assumptions C15_rand_rel.
 
+(** ** randomisation: the table built by the constructor
+
+    [WellRandomizer((R, C), seed, mode).lookup] is [mk_rand_table mode R C draws], where [draws] lists, in
+    call order, the arrays returned by [rng.permutation]: one shuffled copy of the row-major well list
+    (mode "full"), of each row from top to bottom ("row"), of each column from left to right ("column").
+    "Fully determined by the seed": the table is a function of (mode, R, C, draws) only; the map
+    seed -> draws is numpy's generator and is outside the model.  The harness (suites/pure.py) checks that
+    two constructions with one seed give equal tables; that [mk_rand_table] applied to the draws numpy makes
+    is the library's [lookup] (items in insertion order, IndexError cases included) was checked by a
+    generated [vm_compute] comparison over 17 shapes x 5 seeds x 3 modes (see [C15_example_rand_ctor]). *)
+
+(** the definitions (they live in Proofs/RandomizerProofs.v), restated *)
+Theorem C15_rand_table_def :
+  (forall R C, well_columns R C = map (fun c => map (fun r => well_id r c) (seq 0 (Nat.min 26 R))) (seq 0 C)) /\
+  (forall reqs draws,
+     rand_table_of reqs draws = concat (map (fun rd => zip (fst rd) (snd rd)) (zip reqs draws))) /\
+  (forall R C p, rand_table_full R C p = zip (concat (make_well_array R C)) p) /\
+  (forall R C ps, rand_table_row R C ps = rand_table_of (make_well_array R C) ps) /\
+  (forall R C ps, rand_table_column R C ps = rand_table_of (well_columns R C) ps) /\
+  (forall R C, rand_requests RFull R C = [concat (make_well_array R C)] /\
+               rand_requests RRow R C = make_well_array R C /\
+               rand_requests RColumn R C = well_columns R C) /\
+  (forall m R C draws,
+     mk_rand_table m R C draws =
+       if match m with
+          | RFull => false
+          | RRow => (26 <? R)%nat
+          | RColumn => ((R =? 0) && (0 <? C))%nat
+          end
+       then Err EReject else Ok (rand_table_of (rand_requests m R C) draws)).
+Proof. exact xf_rand_table_def. Qed.
+Print Assumptions C15_rand_table_def.
+
+(** the plate: the wells listed by [make_well_array R C] are exactly the strings [make_well_index R C]
+    accepts, i.e. the ids [well_id r c] with r < min R 26 and c < C, each listed once *)
+Theorem C15_plate_index : forall R C w,
+  In w (concat (make_well_array R C)) <-> exists r c, make_well_index R C w = Some (r, c).
+Proof. exact rz_in_plate_index. Qed.
+Print Assumptions C15_plate_index.
+
+Theorem C15_plate_wells : forall R C w,
+  In w (concat (make_well_array R C)) <-> exists r c, r < R /\ r < 26 /\ c < C /\ w = well_id r c.
+Proof. exact rz_in_plate. Qed.
+Print Assumptions C15_plate_wells.
+
+Theorem C15_plate_nodup : forall R C, NoDup (concat (make_well_array R C)).
+Proof. exact rz_nodup_plate. Qed.
+Print Assumptions C15_plate_nodup.
+
+(** [well_columns R C] is [[full[:, c] for c in range(C)]]; its wells are those of the plate *)
+Theorem C15_plate_columns : forall R C,
+  length (well_columns R C) = C /\
+  forall c, c < C ->
+    nth c (well_columns R C) [] = map (fun row => nth c row EmptyString) (make_well_array R C).
+Proof. exact rz_columns_spec. Qed.
+Print Assumptions C15_plate_columns.
+
+Theorem C15_plate_columns_perm : forall R C,
+  Permutation (concat (make_well_array R C)) (concat (well_columns R C)).
+Proof. exact rz_columns_perm. Qed.
+Print Assumptions C15_plate_columns_perm.
+
+(** mode "full": the keys are the plate in row-major order, the values are the draw *)
+Theorem C15_rand_table_full : forall R C p, Permutation (concat (make_well_array R C)) p ->
+  let t := rand_table_full R C p in
+  map fst t = concat (make_well_array R C) /\ map snd t = p /\
+  NoDup (map fst t) /\ NoDup (map snd t) /\ Permutation (map fst t) (map snd t).
+Proof. exact xf_rand_table_full. Qed.
+Print Assumptions C15_rand_table_full.
+
+(** mode "row": keys in row-major order, values the concatenated draws, every pair within one row *)
+Theorem C15_rand_table_row : forall R C ps, Forall2 (@Permutation string) (make_well_array R C) ps ->
+  let t := rand_table_row R C ps in
+  map fst t = concat (make_well_array R C) /\ map snd t = concat ps /\
+  NoDup (map fst t) /\ NoDup (map snd t) /\ Permutation (map fst t) (map snd t) /\
+  (forall k v, In (k, v) t ->
+     (exists r c c', r < R /\ r < 26 /\ c < C /\ c' < C /\ k = well_id r c /\ v = well_id r c') /\
+     str_head k = str_head v).
+Proof. exact xf_rand_table_row. Qed.
+Print Assumptions C15_rand_table_row.
+
+(** mode "column": keys in column-major order (a rearrangement of the plate), every pair within one column *)
+Theorem C15_rand_table_column : forall R C ps, Forall2 (@Permutation string) (well_columns R C) ps ->
+  let t := rand_table_column R C ps in
+  map fst t = concat (well_columns R C) /\ map snd t = concat ps /\
+  Permutation (concat (make_well_array R C)) (map fst t) /\
+  NoDup (map fst t) /\ NoDup (map snd t) /\ Permutation (map fst t) (map snd t) /\
+  (forall k v, In (k, v) t ->
+     (exists r r' c, r < R /\ r < 26 /\ r' < R /\ r' < 26 /\ c < C /\ k = well_id r c /\ v = well_id r' c) /\
+     str_tail k = str_tail v).
+Proof. exact xf_rand_table_column. Qed.
+Print Assumptions C15_rand_table_column.
+
+(** the constructor returns these tables ... *)
+Theorem C15_rand_ctor_modes : forall R C,
+  (forall p, mk_rand_table RFull R C [p] = Ok (rand_table_full R C p)) /\
+  (forall ps, R <= 26 -> mk_rand_table RRow R C ps = Ok (rand_table_row R C ps)) /\
+  (forall ps, (R = 0 -> C = 0) -> mk_rand_table RColumn R C ps = Ok (rand_table_column R C ps)).
+Proof. exact xf_rand_ctor_modes. Qed.
+Print Assumptions C15_rand_ctor_modes.
+
+(** ... and raises (IndexError) exactly in row mode with more than 26 rows and in column mode with no row
+    but some column; in every other case the table is [rand_table_of requests draws] *)
+Theorem C15_rand_ctor_raises : forall m R C draws,
+  (mk_rand_table m R C draws = Err EReject <-> (m = RRow /\ 26 < R) \/ (m = RColumn /\ R = 0 /\ 0 < C)) /\
+  (forall e, mk_rand_table m R C draws = Err e -> e = EReject) /\
+  (forall t, mk_rand_table m R C draws = Ok t -> t = rand_table_of (rand_requests m R C) draws).
+Proof. exact xf_rand_ctor_raises. Qed.
+Print Assumptions C15_rand_ctor_raises.
+
+(** every mode: keys = the requests in call order (row-major plate except in column mode), values = the
+    draws, no key and no value repeated, the values are a rearrangement of the keys, the keys of the plate *)
+Theorem C15_rand_ctor_table : forall m R C draws t,
+  Forall2 (@Permutation string) (rand_requests m R C) draws ->
+  mk_rand_table m R C draws = Ok t ->
+  map fst t = concat (rand_requests m R C) /\ map snd t = concat draws /\
+  (m <> RColumn -> map fst t = concat (make_well_array R C)) /\
+  Permutation (concat (make_well_array R C)) (map fst t) /\
+  NoDup (map fst t) /\ NoDup (map snd t) /\ Permutation (map fst t) (map snd t).
+Proof. exact xf_rand_ctor_table. Qed.
+Print Assumptions C15_rand_ctor_table.
+
+(** randomisation is a permutation of the plate ([C15_rand_permutation], [C15_rand_inverse],
+    [C15_rand_array_inverse], [C15_rand_total] for the constructed table): the lookup is total on the plate,
+    onto the plate and injective, the reverse lookup is its inverse, strings that are not wells of the plate
+    have no image ([dict.get] gives None), derandomize undoes randomize on arrays and conversely *)
+Theorem C15_rand_ctor_bijection : forall m R C draws t,
+  Forall2 (@Permutation string) (rand_requests m R C) draws ->
+  mk_rand_table m R C draws = Ok t ->
+  (forall w, In w (concat (make_well_array R C)) ->
+     exists w', lookup t w = Some w' /\ In w' (concat (make_well_array R C))) /\
+  (forall w', In w' (concat (make_well_array R C)) ->
+     exists w, In w (concat (make_well_array R C)) /\ lookup t w = Some w') /\
+  (forall w1 w2 w', lookup t w1 = Some w' -> lookup t w2 = Some w' -> w1 = w2) /\
+  (forall w w', lookup t w = Some w' <-> lookup (invert t) w' = Some w) /\
+  (forall w, ~ In w (concat (make_well_array R C)) -> lookup t w = None /\ lookup (invert t) w = None) /\
+  (forall a b : arr string, randomize t a = amap Some b <-> derandomize t b = amap Some a) /\
+  (forall a : arr string, (forall w, In w (flattenC a) -> In w (concat (make_well_array R C))) ->
+     exists b, randomize t a = amap Some b /\ derandomize t b = amap Some a).
+Proof. exact xf_rand_ctor_bijection. Qed.
+Print Assumptions C15_rand_ctor_bijection.
+
+(** row mode keeps every well in its row, column mode in its column ([C15_rand_rel] for the constructed
+    table), for randomize and for derandomize *)
+Theorem C15_rand_ctor_row : forall R C ps t,
+  Forall2 (@Permutation string) (make_well_array R C) ps ->
+  mk_rand_table RRow R C ps = Ok t ->
+  forall w w', lookup t w = Some w' \/ lookup (invert t) w' = Some w ->
+    (exists r c c', r < R /\ r < 26 /\ c < C /\ c' < C /\ w = well_id r c /\ w' = well_id r c') /\
+    str_head w = str_head w'.
+Proof. exact xf_rand_ctor_row. Qed.
+Print Assumptions C15_rand_ctor_row.
+
+Theorem C15_rand_ctor_column : forall R C ps t,
+  Forall2 (@Permutation string) (well_columns R C) ps ->
+  mk_rand_table RColumn R C ps = Ok t ->
+  forall w w', lookup t w = Some w' \/ lookup (invert t) w' = Some w ->
+    (exists r r' c, r < R /\ r < 26 /\ r' < R /\ r' < 26 /\ c < C /\ w = well_id r c /\ w' = well_id r' c) /\
+    str_tail w = str_tail w'.
+Proof. exact xf_rand_ctor_column. Qed.
+Print Assumptions C15_rand_ctor_column.
+
 (** ** non-vacuity *)
 Local Open Scope string_scope.
 
@@ -231,4 +401,39 @@ Example C15_example_rand_eval :
   randomize xf_demo_table (A1 ["A01"; "B02"; "A02"]) = amap Some (A1 ["A02"; "B02"; "A01"]) /\
   derandomize xf_demo_table (A1 ["A02"; "B02"; "A01"]) = amap Some (A1 ["A01"; "B02"; "A02"]) /\
   randomize xf_demo_table (A0 "C01") = A0 None.
+Proof. vm_compute. repeat split. Qed.
+
+(** the draws numpy makes for seed 7 on the 2 x 3 plate (one per call of [rng.permutation]) satisfy the
+    hypothesis of the constructor theorems in all three modes *)
+Example C15_example_rand_draws :
+  Forall2 (@Permutation string) (rand_requests RFull 2 3) [xf_draw_full_2x3] /\
+  Forall2 (@Permutation string) (rand_requests RRow 2 3) xf_draws_row_2x3 /\
+  Forall2 (@Permutation string) (rand_requests RColumn 2 3) xf_draws_column_2x3.
+Proof. exact xf_draws_2x3_ok. Qed.
+
+(** ... and the constructed tables are the items of [WellRandomizer((2, 3), 7, mode=...).lookup] in
+    insertion order (column mode inserts column by column) *)
+Example C15_example_rand_ctor :
+  xf_draw_full_2x3 = ["B01"; "B03"; "A01"; "A03"; "A02"; "B02"] /\
+  xf_draws_row_2x3 = [["A03"; "A02"; "A01"]; ["B01"; "B02"; "B03"]] /\
+  xf_draws_column_2x3 = [["A01"; "B01"]; ["B02"; "A02"]; ["A03"; "B03"]] /\
+  rand_requests RColumn 2 3 = [["A01"; "B01"]; ["A02"; "B02"]; ["A03"; "B03"]] /\
+  mk_rand_table RFull 2 3 [xf_draw_full_2x3] =
+    Ok [("A01", "B01"); ("A02", "B03"); ("A03", "A01"); ("B01", "A03"); ("B02", "A02"); ("B03", "B02")] /\
+  mk_rand_table RRow 2 3 xf_draws_row_2x3 =
+    Ok [("A01", "A03"); ("A02", "A02"); ("A03", "A01"); ("B01", "B01"); ("B02", "B02"); ("B03", "B03")] /\
+  mk_rand_table RColumn 2 3 xf_draws_column_2x3 =
+    Ok [("A01", "A01"); ("B01", "B01"); ("A02", "B02"); ("B02", "A02"); ("A03", "A03"); ("B03", "B03")] /\
+  randomize (rand_table_full 2 3 xf_draw_full_2x3) (A2 [["A01"; "B03"]; ["A02"; "C01"]])
+    = A2 [[Some "B01"; Some "B02"]; [Some "B03"; None]] /\
+  derandomize (rand_table_full 2 3 xf_draw_full_2x3) (A1 ["B01"; "B02"; "B03"]) = amap Some (A1 ["A01"; "B03"; "A02"]).
+Proof. vm_compute. repeat split. Qed.
+
+(** shapes on which the constructor raises IndexError, and their neighbours on which it does not *)
+Example C15_example_rand_raises :
+  mk_rand_table RRow 27 1 (map (fun w => [w]) (concat (make_well_array 27 1))) = Err EReject /\
+  mk_rand_table RColumn 0 3 [] = Err EReject /\
+  mk_rand_table RFull 27 1 [concat (make_well_array 27 1)] = Ok (rand_table_full 26 1 (concat (make_well_array 26 1))) /\
+  mk_rand_table RColumn 27 1 [concat (make_well_array 27 1)] = Ok (rand_table_full 26 1 (concat (make_well_array 26 1))) /\
+  mk_rand_table RRow 0 3 [] = Ok [] /\ mk_rand_table RFull 0 3 [[]] = Ok [] /\ mk_rand_table RColumn 3 0 [] = Ok [].
 Proof. vm_compute. repeat split. Qed.
